@@ -4,7 +4,7 @@
    irreflexive, and > <= >= are derived from < exactly as the property demands.
    REFUTED (known finding, see known_findings.txt): transitivity of the vector-level <. *)
 From Coq Require Import ZArith List Bool.
-From Cntgs Require Import Base Layout Mem Vector Proxy World Spec Rep CompareThm ElemThm CmpContent Rep FastEq FastLess.
+From Cntgs Require Import Base Layout Mem Vector Proxy World Spec Rep CompareThm ElemThm CmpContent Rep FastEq FastLess LessVec.
 Import ListNotations.
 Local Open Scope Z_scope.
 
@@ -104,3 +104,16 @@ Example C14_fast_path_lists_exist :
   let L := [ {| pk := Plain; psz := 1; pal := 1; pty := TU8 |}; {| pk := Fixed; psz := 1; pal := 1; pty := TByte |} ] in
   wf_plist L = true /\ padfree L = true /\ has_varying L = false /\ forallb lxm L = true.
 Proof. vm_compute. repeat split; reflexivity. Qed.
+
+(* ... and on the element-wise path (every other list, or operands with different fixed sizes):
+   in every pair of represented states vector < is std::lexicographical_compare over the two
+   lists of tuples under the element-level < - a strict prefix is less, the first pair of
+   elements ordered either way decides - where the element-level < is a function of the two
+   tuples only (C14_reference_less_depends_on_content_only).  (That element-level < is a
+   product order and hence the vector order not a strict weak order is the known finding.) *)
+Theorem C14_vector_less_elementwise_is_lexicographic_on_content : forall L, wf_plist L = true ->
+  forall v1 l1 v2 l2, Rep L v1 l1 -> Rep L v2 l2 ->
+  (forallb lxm L && negb (has_varying L) && padfree L && list_eqb (v_fixed v1) (v_fixed v2)) = false ->
+  vec_less L v1 v2 = lexb _ (tuple_less L) l1 l2.
+Proof. intros L Hwf v1 l1 v2 l2 [o1 R1] [o2 R2]. exact (vec_less_content_elementwise L Hwf v1 v2 l1 l2 o1 o2 R1 R2). Qed.
+Print Assumptions C14_vector_less_elementwise_is_lexicographic_on_content.
